@@ -239,8 +239,10 @@ where
   ) -> ReadResult<Vec<DataSample<D>>> {
     // Clear notification buffer. This must be done first to avoid race conditions.
     self.drain_read_notifications();
+    verif_yield!("datareader:take:after-drain");
 
     self.fill_and_lock_local_datasample_cache()?;
+    verif_yield!("datareader:take:after-fill");
     let mut selected = self.select_keys_for_access(read_condition);
     trace!("take selected count = {}", selected.len());
     selected.truncate(max_samples);
